@@ -5,10 +5,18 @@ use crate::rpc::InternalResp;
 impl NodeController {
     pub(crate) async fn forward_append(&self, wal_key: String, data: Vec<u8>) -> InternalResp {
         self.update_leases().await;
+        #[cfg(walrus_verif)]
+        crate::verif::point("leases-refreshed", format!("{} n{}", wal_key, self.node_id)).await;
         match self.append_with_retry(&wal_key, data).await {
             Ok(_) => {
                 tracing::debug!("handle_rpc: append success for {}", wal_key);
+                #[cfg(not(walrus_verif))]
                 self.record_append(&wal_key, 1).await; // 1 entry appended
+                #[cfg(walrus_verif)]
+                {
+                    let recorded = self.record_append(&wal_key, 1).await;
+                    crate::verif::point("recorded", format!("{} {}", wal_key, recorded)).await;
+                }
                 if let Some((topic, segment)) = parse_wal_key(&wal_key) {
                     if let Err(e) = self.maybe_rollover(&topic, segment).await {
                         tracing::warn!(
